@@ -1383,3 +1383,151 @@ pub fn run_client_rtu(_cfg: &ScenCfg, out: &mut RunOut) {
     out.nontrivial = Some(wl);
     out.sample = Some(json!({"scenario": "C ABI serial client", "baud": baud, "retry_ms": [retry_ms, retry_max], "failed_opens": fails, "requests": n}));
 }
+
+// ---------------------------------------------------------------------------
+// C18: TLS client configuration through the C ABI
+
+pub fn run_client_tls(_cfg: &ScenCfg, out: &mut RunOut) {
+    use super::tls::{fixture, peer_server_config};
+    use simtokio::io::{AsyncReadExt, AsyncWriteExt};
+    use simtokio::net::TcpListener;
+    let chunk = chance(1, 2);
+    kernel::with(|w| {
+        w.cfg.chunk_reads = chunk;
+        w.cfg.short_writes = chunk;
+    });
+    let dec_idx = choose(36) as u8;
+    let min13 = choose(2) == 1;
+    let self_signed = choose(2) == 1;
+    let peer_v = choose(3);
+    // which certificate the server presents, and which name the client is told to expect
+    let (srv_cert, srv_key, trust, local_cert, local_key): (&str, &str, &str, &str, &str) = if self_signed {
+        match choose(2) {
+            0 => ("ss_a_cert.pem", "ss_a_key.pem", "ss_a_cert.pem", "ss_b_cert.pem", "ss_b_key.pem"),
+            _ => ("ss_c_cert.pem", "ss_c_key.pem", "ss_a_cert.pem", "ss_b_cert.pem", "ss_b_key.pem"),
+        }
+    } else {
+        match choose(3) {
+            0 => ("srv_ok_cert.pem", "srv_ok_key.pem", "ca1_cert.pem", "cli_operator_cert.pem", "cli_operator_key.pem"),
+            1 => ("srv_wrongname_cert.pem", "srv_wrongname_key.pem", "ca1_cert.pem", "cli_operator_cert.pem", "cli_operator_key.pem"),
+            _ => ("srv_wrongca_cert.pem", "srv_wrongca_key.pem", "ca1_cert.pem", "cli_operator_cert.pem", "cli_operator_key.pem"),
+        }
+    };
+    let (dns_name, wildcard_flag) = match choose(4) {
+        0 => ("test.com", false),
+        1 => ("other.example", false),
+        2 => ("*", true),
+        _ => ("*", false),
+    };
+    // expected admission (written from the documented meaning of the fields)
+    let cert_ok = if self_signed {
+        srv_cert == "ss_a_cert.pem"
+    } else {
+        let chain_ok = srv_cert != "srv_wrongca_cert.pem";
+        let cert_names: &[&str] = if srv_cert == "srv_wrongname_cert.pem" { &["other.example"] } else { &["test.com"] };
+        let name_ok = if dns_name == "*" && wildcard_flag { true } else { cert_names.contains(&dns_name) };
+        chain_ok && name_ok
+    };
+    let version_ok = !min13 || peer_v != 0;
+    let admitted = cert_ok && version_ok;
+    let mut rt = FfiRuntime::new();
+    let addr: SocketAddr = "10.0.0.7:802".parse().unwrap();
+    let listener = TcpListener::bind_now(addr).unwrap();
+    let scfg = peer_server_config(peer_v, srv_cert, srv_key);
+    let got_req = Arc::new(Mutex::new(Vec::<u8>::new()));
+    {
+        let got_req = got_req.clone();
+        simtokio::task::spawn_named("tls-peer-server", async move {
+            let (tcp, _) = match listener.accept().await {
+                Ok(x) => x,
+                Err(_) => return,
+            };
+            let acceptor = tokio_rustls::TlsAcceptor::from(scfg);
+            let mut stream = match acceptor.accept(tcp).await {
+                Ok(s) => s,
+                Err(_) => return,
+            };
+            let mut buf = [0u8; 64];
+            if let Ok(Ok(n)) = simtokio::time::timeout(std::time::Duration::from_secs(3), stream.read(&mut buf)).await {
+                got_req.lock().unwrap().extend_from_slice(&buf[..n]);
+                if n >= 12 {
+                    let tx = ((buf[0] as u16) << 8) | buf[1] as u16;
+                    let _ = stream.write_all(&mbap_frame(tx, 1, &[3, 2, 0xBE, 0xEF])).await;
+                }
+            }
+            simtokio::time::sleep(std::time::Duration::from_secs(5)).await;
+        });
+    }
+    let cs = |s: &str| CString::new(s).unwrap();
+    let (c_dns, c_peer, c_local, c_key, c_pw) = (
+        cs(dns_name),
+        cs(fixture(trust).to_str().unwrap()),
+        cs(fixture(local_cert).to_str().unwrap()),
+        cs(fixture(local_key).to_str().unwrap()),
+        cs(""),
+    );
+    let tls = ffi::TlsClientConfig {
+        dns_name: c_dns.as_ptr(),
+        peer_cert_path: c_peer.as_ptr(),
+        local_cert_path: c_local.as_ptr(),
+        private_key_path: c_key.as_ptr(),
+        password: c_pw.as_ptr(),
+        min_tls_version: if min13 { 1 } else { 0 },
+        certificate_mode: if self_signed { 1 } else { 0 },
+        allow_server_name_wildcard: wildcard_flag,
+    };
+    let states: Arc<Mutex<StateLog>> = Arc::new(Mutex::new(StateLog::default()));
+    let lst = ffi::ClientStateListener {
+        on_change: Some(st_change),
+        on_destroy: Some(st_destroy),
+        ctx: Arc::into_raw(states.clone()) as *mut c_void,
+    };
+    let host = cs("10.0.0.7");
+    let mut ch: *mut rodbus_ffi::ClientChannel = std::ptr::null_mut();
+    let rc = unsafe {
+        ffi::rodbus_client_channel_create_tls(rt.ptr, host.as_ptr(), 802, 4, ffi::RetryStrategy { min_delay: 30_000, max_delay: 30_000 }, tls, ffi_decode(dec_idx), lst, &mut ch)
+    };
+    let desc = format!(
+        "C ABI TLS client: mode={} min={} dns_name={:?} allow_wildcard={} server_cert={} peer_versions={}",
+        if self_signed { "self-signed" } else { "authority" },
+        if min13 { "1.3" } else { "1.2" },
+        dns_name,
+        wildcard_flag,
+        srv_cert,
+        ["1.2", "1.3", "1.2+1.3"][peer_v as usize]
+    );
+    if rc != 0 {
+        // "*" without the wildcard flag is not a usable DNS name: refusing the configuration is fine
+        if !(dns_name == "*" && !wildcard_flag && !self_signed) {
+            out.violate("C18", "tls_client_create", format!("{}: create_tls returned {}", desc, rc));
+        }
+        out.nontrivial = Some(0xFF ^ (min13 as u64) << 9);
+        return;
+    }
+    kernel::settle();
+    unsafe { ffi::rodbus_client_channel_enable(ch) };
+    kernel::run_until(|| false, 500 * MS, 200_000);
+    let ctx: Ctx = Arc::new(Mutex::new(CbLog::default()));
+    let _ = ffi_submit(ch, &Req::ReadHolding { start: 0, count: 1 }, 1, 1000, &ctx);
+    kernel::run_until(|| false, kernel::now_ns() + 2_000 * MS, 200_000);
+    let st: Vec<c_int> = states.lock().unwrap().states.iter().map(|s| s.1).collect();
+    let connected = st.contains(&2);
+    let served = ctx.lock().unwrap().outcomes.first().map(|o| o.1 == CbOutcome::Regs(vec![(0, 0xBEEF)])).unwrap_or(false);
+    // "*" without the flag in authority mode means: expect the literal name "*" (never matches)
+    if admitted != (connected && served) {
+        out.violate(
+            "C18",
+            "tls_client_config_not_forwarded",
+            format!("{}: expected admitted={} but listener states {:?}, request outcome {:?}", desc, admitted, st, ctx.lock().unwrap().outcomes),
+        );
+        out.violate("C09", "tls_client_config_not_forwarded", desc.clone());
+    }
+    out.probe(if admitted { "ffi_tls_admitted" } else { "ffi_tls_refused" });
+    out.ops_checked = 1;
+    out.nontrivial = Some((min13 as u64) | (self_signed as u64) << 1 | (peer_v as u64) << 2 | (wildcard_flag as u64) << 4 | (dns_name.len() as u64) << 5 | (srv_cert.len() as u64) << 12 | (dec_idx as u64) << 20 | (chunk as u64) << 30);
+    out.sample = Some(json!({"scenario": desc, "admitted_expected": admitted, "states": st}));
+    rt.destroy();
+    kernel::settle();
+    unsafe { ffi::rodbus_client_channel_destroy(ch) };
+    kernel::settle();
+}
